@@ -152,4 +152,240 @@ theorem calcLine_fixpoint (cur : String) (c : ℕ) (rates : List XRate) (r : Rul
   rw [lineDiscounts_round r c (max p.exp it.sub) _ l.discounts _ hce hd]
   rw [lineCharges_round r c (max p.exp it.sub) l.qty _ l.charges _ hce hc]
 
+/-! ### the whole document -/
+
+/-- a line the second calculation reproduces: no breakdown, and either no item at all or a priced item in
+the document currency whose fixed discount/charge amounts are not finer than the line is presented with -/
+def LineStable (cur : String) (c : ℕ) (l : Line) : Prop :=
+  l.breakdown = [] ∧
+  match l.item with
+  | none => True
+  | some it => ∃ p, it.price = some p ∧ (it.cur == "" || it.cur == cur) = true ∧ c ≤ it.sub ∧
+      (∀ d ∈ l.discounts, DiscountStable (max p.exp it.sub) d) ∧
+      (∀ d ∈ l.charges, ChargeStable (max p.exp it.sub) d)
+
+theorem calcLine_fix (cur : String) (c : ℕ) (rates : List XRate) (r : Rule) (l l1 : Line)
+    (hs : LineStable cur c l) (h1 : calcLine exactOps cur c rates r l = .ok l1) :
+    calcLine exactOps cur c rates r (roundLine exactOps l1) = .ok l1 := by
+  obtain ⟨hb, hi⟩ := hs
+  cases hit : l.item with
+  | none =>
+    have : l1 = l := by
+      unfold calcLine at h1
+      simp only [hit] at h1
+      injection h1 with h1
+      exact h1.symm
+    subst this
+    have hr : roundLine exactOps l1 = l1 := by unfold roundLine; simp only [hit]
+    rw [hr]
+    unfold calcLine
+    simp only [hit]
+  | some it =>
+    rw [hit] at hi
+    obtain ⟨p, hp, hcur, hsub, hd, hc⟩ := hi
+    exact calcLine_fixpoint cur c rates r l l1 it p hb hit hp hcur hsub hd hc h1
+
+theorem calcLines_fix (cur : String) (c : ℕ) (rates : List XRate) (r : Rule) (ls ls1 : List Line)
+    (hs : ∀ l ∈ ls, LineStable cur c l) (h1 : calcLines exactOps cur c rates r ls = .ok ls1) :
+    calcLines exactOps cur c rates r (ls1.map (roundLine exactOps)) = .ok ls1 := by
+  induction ls generalizing ls1 with
+  | nil =>
+    simp only [calcLines] at h1
+    injection h1 with h1
+    subst h1
+    rfl
+  | cons l ls ih =>
+    simp only [calcLines] at h1
+    cases ha : calcLine exactOps cur c rates r l with
+    | error e => simp [ha] at h1
+    | ok l1 =>
+      cases hb : calcLines exactOps cur c rates r ls with
+      | error e => simp [ha, hb] at h1
+      | ok ls' =>
+        simp only [ha, hb] at h1
+        injection h1 with h1
+        subst h1
+        simp only [List.map_cons, calcLines]
+        rw [calcLine_fix cur c rates r l l1 (hs l (by simp)) ha,
+          ih ls' (fun x hx => hs x (by simp [hx])) hb]
+
+/-- a document discount/charge whose stored amount survives presentation -/
+def DocAdjStable (c : ℕ) (x : DocAdj) : Prop :=
+  (∃ p, x.percent = some p ∧ pctIsZero p = false) ∨ x.amount.exp ≤ c
+
+theorem applyRule_exp (r : Rule) (c : ℕ) (a : Amount) (h : a.exp ≤ c) : (applyRule exactOps r c a).exp = c := by
+  cases r <;> simp [applyRule, up_exp] <;> omega
+
+theorem applyRule_fix (r : Rule) (c : ℕ) (a : Amount) (h : a.exp = c) : applyRule exactOps r c a = a := by
+  cases r
+  · exact up_self a c (by omega)
+  · simp only [applyRule, exact_rescale]
+    exact rescaleX_self a c h
+  · exact up_self a c (by omega)
+
+theorem docAdj_fix (r : Rule) (c : ℕ) (sum : Amount) (x : DocAdj) (hs : DocAdjStable c x) :
+    docAdj exactOps r c sum (roundDocAdj exactOps c (docAdj exactOps r c sum x)) = docAdj exactOps r c sum x := by
+  have fixed : ∀ (hfix : (docAdj exactOps r c sum x) = { x with amount := applyRule exactOps r c x.amount })
+      (hperc : ∀ y : DocAdj, y.percent = x.percent → y.base = x.base →
+        docAdj exactOps r c sum y = { y with amount := applyRule exactOps r c y.amount })
+      (hexp : x.amount.exp ≤ c),
+      docAdj exactOps r c sum (roundDocAdj exactOps c (docAdj exactOps r c sum x)) = docAdj exactOps r c sum x := by
+    intro hfix hperc hexp
+    rw [hfix]
+    have he : (applyRule exactOps r c x.amount).exp = c := applyRule_exp r c x.amount hexp
+    have hround : roundDocAdj exactOps c { x with amount := applyRule exactOps r c x.amount } =
+        { x with amount := applyRule exactOps r c x.amount } := by
+      unfold roundDocAdj
+      simp only
+      rw [down_noop]
+      rw [he]
+      cases x.base with
+      | none => simp
+      | some b => simp only; split <;> omega
+    rw [hround, hperc { x with amount := applyRule exactOps r c x.amount } rfl rfl]
+    simp only
+    rw [applyRule_fix r c _ he]
+  cases hp : x.percent with
+  | none =>
+    rcases hs with ⟨p, h1, _⟩ | hexp
+    · rw [hp] at h1; cases h1
+    · apply fixed
+      · simp [docAdj, hp]
+      · intro y hy _; simp [docAdj, hy, hp]
+      · exact hexp
+  | some p =>
+    by_cases hz : pctIsZero p = true
+    · rcases hs with ⟨q, h1, h2⟩ | hexp
+      · rw [hp] at h1; cases h1; rw [hz] at h2; cases h2
+      · apply fixed
+        · simp [docAdj, hp, hz]
+        · intro y hy _; simp [docAdj, hy, hp, hz]
+        · exact hexp
+    · -- the amount is recomputed from the percentage whatever was stored
+      unfold docAdj roundDocAdj
+      simp only [hp, hz]
+      cases hb : x.base with
+      | none => simp [hp, hz, hb]
+      | some b => simp [hp, hz, hb]
+
+/-- an advance whose stored amount survives presentation -/
+def AdvanceStable (c : ℕ) (a : Advance) : Prop := a.percent.isSome ∨ a.amount.exp ≤ c
+
+theorem calcAdvance_fix (c : ℕ) (twt : Amount) (a : Advance) (hs : AdvanceStable c a) :
+    calcAdvance exactOps c twt
+        { calcAdvance exactOps c twt a with amount := exactOps.rescale (calcAdvance exactOps c twt a).amount c } =
+      calcAdvance exactOps c twt a := by
+  unfold calcAdvance
+  cases hp : a.percent with
+  | some p => simp [hp]
+  | none =>
+    rcases hs with h | h
+    · rw [hp] at h; cases h
+    · simp only [hp, exact_rescale]
+      have he : (up a.amount c).exp = c := by rw [up_exp]; omega
+      rw [rescaleX_self _ c he, up_up]
+
+theorem calcDue_idem (c : ℕ) (payable : Amount) (x : Due) :
+    calcDue exactOps c payable (calcDue exactOps c payable x) = calcDue exactOps c payable x := by
+  unfold calcDue
+  cases hp : x.percent with
+  | none =>
+    simp only [hp, exact_rescale]
+    rw [rescaleX_self _ c (rescaleX_exp _ c)]
+  | some p =>
+    by_cases hz : pctIsZero p = true
+    · simp only [hp, hz, if_true, exact_rescale]
+      rw [rescaleX_self _ c (rescaleX_exp _ c)]
+    · simp [hp, hz]
+
+/-- the calculated and presented document read back as the input of the next calculation -/
+def rereadDoc (d : Doc) (o : Out) : Doc :=
+  { d with lines := o.lines, discounts := o.discounts, charges := o.charges, advances := o.advances, dues := o.dues }
+
+def DocStable (d : Doc) : Prop :=
+  (∀ l ∈ d.lines, LineStable d.cur d.c l) ∧ (∀ x ∈ d.discounts, DocAdjStable d.c x) ∧
+  (∀ x ∈ d.charges, DocAdjStable d.c x) ∧ (∀ a ∈ d.advances, AdvanceStable d.c a)
+
+theorem map_docAdj_fix (r : Rule) (c : ℕ) (sum : Amount) (xs : List DocAdj) (hs : ∀ x ∈ xs, DocAdjStable c x) :
+    ((xs.map (docAdj exactOps r c sum)).map (roundDocAdj exactOps c)).map (docAdj exactOps r c sum) =
+      xs.map (docAdj exactOps r c sum) := by
+  rw [List.map_map, List.map_map]
+  apply List.map_congr_left
+  intro x hx
+  exact docAdj_fix r c sum x (hs x hx)
+
+theorem map_calcAdvance_fix (c : ℕ) (twt : Amount) (xs : List Advance) (hs : ∀ a ∈ xs, AdvanceStable c a) :
+    ((xs.map (calcAdvance exactOps c twt)).map (fun a => { a with amount := exactOps.rescale a.amount c })).map
+        (calcAdvance exactOps c twt) = xs.map (calcAdvance exactOps c twt) := by
+  rw [List.map_map, List.map_map]
+  apply List.map_congr_left
+  intro a ha
+  exact calcAdvance_fix c twt a (hs a ha)
+
+theorem pre_reread (d : Doc) (p : Pre) (o : Out) (hsl : ∀ l ∈ d.lines, LineStable d.cur d.c l)
+    (hsd : ∀ x ∈ d.discounts, DocAdjStable d.c x) (hsc : ∀ x ∈ d.charges, DocAdjStable d.c x)
+    (hpre : pre exactOps d = .ok p)
+    (hol : o.lines = p.lines.map (roundLine exactOps)) (hod : o.discounts = p.discounts.map (roundDocAdj exactOps d.c))
+    (hoc : o.charges = p.charges.map (roundDocAdj exactOps d.c)) :
+    pre exactOps (rereadDoc d o) = .ok p := by
+  unfold pre at hpre
+  cases hl : calcLines exactOps d.cur d.c d.rates d.rule d.lines with
+  | error e => simp [hl] at hpre
+  | ok lines =>
+    simp only [hl] at hpre
+    injection hpre with hpre
+    subst hpre
+    simp only at hol hod hoc
+    have hl2 := calcLines_fix d.cur d.c d.rates d.rule d.lines lines hsl hl
+    have hd2 := map_docAdj_fix d.rule d.c (lineSum exactOps d.c lines) d.discounts hsd
+    have hc2 := map_docAdj_fix d.rule d.c (lineSum exactOps d.c lines) d.charges hsc
+    unfold pre
+    simp only [rereadDoc, hol, hod, hoc, hl2, hd2, hc2]
+
+/-- **Document fixpoint.**  If a stable document calculates to `out` (with totals), the document read back
+from `out` calculates to exactly `out` again. -/
+theorem calculate_fixpoint (d : Doc) (out : Out) (t : Totals) (hs : DocStable d)
+    (h : calculate exactOps d = .ok out) (ht : out.totals = some t) :
+    calculate exactOps (rereadDoc d out) = .ok out := by
+  obtain ⟨hsl, hsd, hsc, hsa⟩ := hs
+  unfold calculate at h
+  cases hpre : pre exactOps d with
+  | error e => simp [hpre] at h
+  | ok p =>
+    simp only [hpre] at h
+    by_cases hre : p.rows.isEmpty = true
+    · simp only [hre, if_true] at h
+      injection h with h
+      rw [← h] at ht
+      simp at ht
+    · simp only [hre, if_false] at h
+      cases htx : taxTotal exactOps d.rule d.c d.includes p.rows with
+      | error e => simp [htx] at h
+      | ok tx =>
+        simp only [htx] at h
+        injection h with h
+        subst h
+        have hpre' := pre_reread d p (finish exactOps d p tx) hsl hsd hsc hpre rfl rfl rfl
+        unfold calculate
+        rw [hpre']
+        simp only [hre, if_false, Bool.false_eq_true]
+        have h1 : (rereadDoc d (finish exactOps d p tx)).rule = d.rule := rfl
+        have h2 : (rereadDoc d (finish exactOps d p tx)).c = d.c := rfl
+        have h3 : (rereadDoc d (finish exactOps d p tx)).includes = d.includes := rfl
+        rw [h1, h2, h3, htx]
+        simp only
+        congr 1
+        -- same Pre and tax summary: only the advances and due dates were read back
+        unfold finish rawTotals
+        simp only [rereadDoc]
+        cases hpay : d.hasPayment
+        · simp
+        · simp only [if_true]
+          rw [map_calcAdvance_fix d.c _ d.advances hsa]
+          simp only [List.map_map]
+          congr 1
+          apply List.map_congr_left
+          intro x _
+          exact calcDue_idem d.c _ x
+
 end GoblVerif.Calc
